@@ -42,8 +42,29 @@ Definition c19_clash (i : input) : bool :=
   | _ => false
   end.
 
+(** every attribute the macro adds to a generated / re-emitted trait refers to its macro by an absolute path *)
+Definition attr_abs (a : attr) : bool := is_prefix path_sep (snd (ungate a)).
+
+Definition c19_attrs_view (c : ctx) (items : list item) : view :=
+  match x_input c, parts (x_input c) items with
+  | (InFn h _ _ | InMod h _ _ _ _), Some (GFn _ tr _ | GMod _ _ _ _ tr _ _ _) =>
+      let added := minus_attrs (t_attrs tr) (filter is_trait_sub (h_attrs h)) in
+      decided (forallb attr_abs added) added
+  | InTrait h _, Some (GTrait tr ds _) =>
+      let added := minus_attrs (t_attrs tr) (h_attrs h) ++ flat_map (fun d => minus_attrs (t_attrs d) (h_attrs h)) ds in
+      decided (forallb attr_abs added) added
+  | (InFn _ _ _ | InMod _ _ _ _ _ | InTrait _ _), None => undetermined
+  | _, _ => na
+  end.
+
+(** both views, where they speak *)
+Definition view_and (a b : view) : view :=
+  if v_app a then
+    if v_app b then mkView true (v_det a && v_det b) (v_holds a && v_holds b) (v_alpha a ++ v_alpha b) else a
+  else b.
+
 Definition view_C19g (c : ctx) (items : list item) : view :=
-  if c19_clash (x_input c) then na else view_C19 c items.
+  if c19_clash (x_input c) then na else view_and (view_C19 c items) (c19_attrs_view c items).
 
 (** ** C04: distinct type parameter names; no where predicate printed as [Self: ...] *)
 Definition tparam_names (g : generics) : list string :=
